@@ -727,6 +727,41 @@ func (rw *rewriter) sharedSliceExpr(x ast.Expr, stmt ast.Stmt) bool {
 	return false
 }
 
+// elemFields: slice fields of shared code objects whose *elements* are
+// rewritten in place while other routines may be evaluating the same code
+// (Function.Eval compiles a list argument on first use and stores the result
+// back into f.Args[i]).
+var elemFields = map[string]string{"Function": "Args"}
+
+// elemExpr reports whether ix is x.Args[i] of a Function with plain operands.
+func (rw *rewriter) elemExpr(ix *ast.IndexExpr, stmt ast.Stmt) bool {
+	sel, ok := ast.Unparen(ix.X).(*ast.SelectorExpr)
+	if !ok || !rw.isSlice(ix.X) || rw.hasRealCall(ix.Index) || !addressable(ix.X) {
+		return false
+	}
+	t := rw.info.TypeOf(sel.X)
+	if t == nil {
+		return false
+	}
+	if p, ok := t.(*types.Pointer); ok {
+		t = p.Elem()
+	}
+	n, ok := types.Unalias(t).(*types.Named)
+	if !ok || elemFields[n.Obj().Name()] != sel.Sel.Name {
+		return false
+	}
+	if id, ok := ast.Unparen(sel.X).(*ast.Ident); ok {
+		if v, ok := rw.info.Uses[id].(*types.Var); ok && v.Pos() < stmt.Pos() {
+			if iid, ok := ast.Unparen(ix.Index).(*ast.Ident); ok {
+				if iv, ok := rw.info.Uses[iid].(*types.Var); ok && iv.Pos() < stmt.Pos() {
+					return true
+				}
+			}
+		}
+	}
+	return false
+}
+
 // addressable reports whether &x compiles for the shared expression x (a
 // selector chain without the Vars() accessor).
 func addressable(x ast.Expr) bool {
@@ -928,6 +963,8 @@ func (rw *rewriter) mapName(m ast.Expr) string {
 		if sel, ok := tm.Fun.(*ast.SelectorExpr); ok {
 			return sel.Sel.Name + "()"
 		}
+	case *ast.IndexExpr:
+		return rw.mapName(tm.X) + "[i]"
 	case *ast.Ident:
 		return tm.Name
 	}
@@ -966,6 +1003,10 @@ func (rw *rewriter) withMapProbes(list []ast.Stmt, quiet bool, fn string) []ast.
 			}
 			for _, l := range ts.Lhs {
 				ix, ok := ast.Unparen(l).(*ast.IndexExpr)
+				if ok && len(ts.Lhs) == 1 && ts.Tok == token.ASSIGN && rw.elemExpr(ix, s) && !rw.hasRealCall(ts.Rhs[0]) {
+					out = append(out, rw.varProbe("VarW", ix, s, fn))
+					continue
+				}
 				if !ok || !rw.isMap(ix.X) || !rw.sharedMapExpr(ix.X, s) {
 					continue
 				}
@@ -1019,6 +1060,17 @@ func (rw *rewriter) withMapProbes(list []ast.Stmt, quiet bool, fn string) []ast.
 			if rw.isMap(ts.X) && rw.sharedMapExpr(ts.X, s) {
 				out = append(out, rw.probe("MapR", ts.X, s, fn))
 				ts.Body.List = append([]ast.Stmt{rw.probe("MapR", ts.X, s, fn)}, ts.Body.List...)
+			} else if key, isID := ts.Key.(*ast.Ident); isID && key.Name != "_" && ts.Tok == token.DEFINE {
+				probeIx := &ast.IndexExpr{X: ts.X, Index: ast.NewIdent(key.Name)}
+				if sel, ok := ast.Unparen(ts.X).(*ast.SelectorExpr); ok && rw.isSlice(ts.X) && addressable(ts.X) {
+					t := rw.info.TypeOf(sel.X)
+					if p, ok := t.(*types.Pointer); ok {
+						t = p.Elem()
+					}
+					if n, ok := types.Unalias(t).(*types.Named); ok && elemFields[n.Obj().Name()] == sel.Sel.Name {
+						ts.Body.List = append([]ast.Stmt{rw.varProbe("VarR", probeIx, s, fn)}, ts.Body.List...)
+					}
+				}
 			} else if rw.sharedSliceExpr(ts.X, s) {
 				out = append(out, rw.varProbe("VarR", ts.X, s, fn))
 			}
